@@ -4,6 +4,7 @@ set -u
 cd "$(dirname "$0")"
 . ./env.sh
 prop="$1"; tier="${2:-${VERIF_TIER:-quick}}"; shift; shift || true
+mkdir -p bin evidence replay
 if ! ./build.sh >bin/build.log 2>&1; then
   # a tree that does not build is not a property violation
   cat bin/build.log >&2
